@@ -82,7 +82,7 @@ def build_update_for(nb, ckn):
                     "dropped": ["attributes and doc comments on the item", "generic header and where-clauses (the bucket count and checksum width are left *arbitrary*: one proof for all five variants and both bucket layouts)",
                                 "bodies of callees (b_mapping, InnerChecksum::update, increment, likely/unlikely): replaced by contracts"],
                     "kept": "every statement and expression of the body, token for token apart from the listed rewrites"}
-        return {"text": text, "expect": ["Generator::update", "Generator::canary_update_pre", "lemma_chunking_independent", "lemma_fed_length"], "function": "generate::inner::Generator::update",
+        return {"text": text, "expect": ["Generator::update", "Generator::canary_update_pre", "lemma_chunking_independent", "lemma_fed_length", "lemma_checksum_invariant"], "function": "generate::inner::Generator::update",
                 "functions": {"Generator::update": "generate::inner::Generator::update"},
                 "domain": "all data slices (any length) x all well-formed generator states; no bound",
                 "fidelity": fidelity,
